@@ -1,10 +1,12 @@
 import Starcal.FHour
+import Starcal.FloatStd
 /-! # C18 — time-of-day conversions (h:m:s, seconds, fractional hours) are mutually inverse
 
-Integer clauses over `Int`; the fractional-hour clauses over exact rationals (`Rat`): Lean has no
-kernel semantics for IEEE doubles, so the float code is modelled by rational arithmetic and the
-finite round-trip clause is compared exhaustively with the real float code on every run
-(**partial**, DESIGN 6.5). -/
+Integer clauses over `Int`. The fractional-hour clauses twice: over exact rationals (`…_partial`), and for the float
+code with every operation rounded, under the standard model of floating-point arithmetic (`…_std`: any rounding
+function with relative error ≤ 2^-53). Lean has no kernel semantics for IEEE doubles, so that binary64 is such an
+arithmetic stays an assumption; the finite round-trip clause is also compared exhaustively with the real float code
+on every run (DESIGN 6.5). -/
 namespace Starcal.Props
 open Starcal.FHour
 
@@ -35,6 +37,28 @@ theorem C18_within_one_second_partial (q : Rat) :
 theorem C18_split_keeps_total (t : Int) (h0 : 0 ≤ t) :
     totalSeconds ⟨t / 3600, t / 60 % 60, t % 60⟩ = t :=
   total_split t h0
+
+/-! ### the float code itself, under the standard model of floating-point arithmetic (FloatStd.lean)
+
+For EVERY rounding function with relative error at most 2^-53 per operation (which IEEE-754 binary64 round-to-nearest
+is, on this range — assumed, DESIGN section 5): -/
+
+/-- every valid time of day converts to a fractional hour and back to itself — all 86 400 of them, with every float
+    operation rounded -/
+theorem C18_floathour_roundtrip_std (rnd : Rat → Rat) (h : FloatStd.StdModel rnd) (x : HMS) (hv : valid x) :
+    FloatStd.ofFloatHourR rnd (FloatStd.floatHourR rnd x) = x :=
+  FloatStd.roundtrip_std rnd h x hv
+
+/-- the same when `fh*3600 + 0.5` is computed with one rounding (fused multiply-add) -/
+theorem C18_floathour_roundtrip_std_fma (rnd : Rat → Rat) (h : FloatStd.StdModel rnd) (x : HMS) (hv : valid x) :
+    FloatStd.ofFloatHourFMA rnd (FloatStd.floatHourR rnd x) = x :=
+  FloatStd.roundtrip_std_fma rnd h x hv
+
+/-- for any fractional hour in [0, 24) the rounded total of seconds is within one second of it and at most 86 400 -/
+theorem C18_within_one_second_std (rnd : Rat → Rat) (h : FloatStd.StdModel rnd) (q : Rat) (q0 : 0 ≤ q) (q1 : q < 24) :
+    let t := (rnd (rnd (q * 3600) + 1 / 2)).floor
+    ((t : Int) : Rat) - q * 3600 < 1 ∧ q * 3600 - ((t : Int) : Rat) < 1 ∧ 0 ≤ t ∧ t ≤ 86400 :=
+  FloatStd.within_one_second_std rnd h q q0 q1
 
 example : valid ⟨23, 59, 59⟩ := by unfold valid; decide
 example : hmsBySeconds 3600 = ⟨1, 0, 0⟩ := by decide
